@@ -34,6 +34,23 @@ class Tag:
         return ('T', ast)
 
 
+class Counting:
+    """Value-like semantics object: every instance equals every other; wraps values with its own call count."""
+
+    def __init__(self):
+        self.n = 0
+
+    def __eq__(self, other):
+        return type(other) is type(self)
+
+    def __hash__(self):
+        return 11
+
+    def _default(self, ast, *a, **k):
+        self.n += 1
+        return ('N', self.n, ast)
+
+
 # call alphabet: (kind, args...)
 CALLS = [
     ('compile-parse', 'G1', (), 'a b', ()),
@@ -61,9 +78,11 @@ CALLS = [
     ('model2-attach-parse-detach', 'G1', 'a b', ()),
     ('compile-parse', 'G4', (), 'h p', ()),      # constants: names bound by one parse ...
     ('compile-parse', 'G5', (), 'z', ()),        # ... must be invisible to another grammar's constants
+    ('compile-parse', 'G1', (('semantics', 'counting'),), 'a b', ()),   # a fresh object, equal to the ones used before
+    ('model-parse', 'G1', 'a b', (('semantics', 'counting'),)),
 ]
 SAME_AS = {20: 2}   # call index -> call index whose first observation it must equal
-REDUCED = [0, 1, 2, 5, 7, 12, 13, 16, 17, 19, 20, 21, 22]
+REDUCED = [0, 1, 2, 5, 7, 12, 13, 16, 17, 19, 20, 21, 22, 23, 24]
 GRAMMARS = {'G1': G1, 'G2': G2, 'G3': G3, 'G4': G4, 'G5': G5}
 
 
@@ -100,6 +119,8 @@ def run_history(hist):
         d = dict(o)
         if d.get('semantics') == 'tag':
             d['semantics'] = Tag()
+        if d.get('semantics') == 'counting':
+            d['semantics'] = Counting()
         return d
 
     for idx in hist:
